@@ -15,6 +15,9 @@ LEVEL = 'proof'
 RULE = ('generated riscv:rvc objects: 1-3 code sections in 1-2 memory images, each a sequence of nop blocks, `j L` (CB, '
         'cb_imm11) and `jal rd, L` (CBl, cbl_imm11, rd = ra mostly, sometimes x5) with labels at instruction boundaries; '
         'block sizes are drawn so that jump distances fall around +-2 KiB (the can_shrink boundary), +-1 MiB and small values; '
+        'plus five deterministic programs run (search AND model correspondence) on every run, among them two multi-image '
+        'layouts with shrunk jumps in an earlier image and referenced sections in later images; layout oracle: a section '
+        'moves down by exactly 2 bytes per jump shrunk in earlier sections of its own image and never below its memory; '
         'non-trivial = distinct program in which at least one jump is shrunk')
 EXPLANATION = ('Unbounded Coq theorems over the hand model: byte deletion in reverse order realises new_off on every non-hole '
                'byte for sorted disjoint holes; symbols and relocations move to new_off of their offset; sections of an image '
@@ -214,6 +217,7 @@ def check_program(ctx, prog, stats, canon=None):
         stats['relaxed_link_error:' + type(ex).__name__] = stats.get('relaxed_link_error:' + type(ex).__name__, 0) + 1
         return None
     nshrunk = 0
+    shrunk_in = {}
     base = {'fn': 'link_relax', 'program': prog}
     for j in jumps:
         a = decode_jump(out0, j)
@@ -230,6 +234,8 @@ def check_program(ctx, prog, stats, canon=None):
             continue
         if b[2] == 2:
             nshrunk += 1
+            if a[2] == 4:
+                shrunk_in[j['section']] = shrunk_in.get(j['section'], 0) + 1
         if b[0] != lab1:
             # listed shape (code TODO in do_relaxations): a shrunk jump into ANOTHER memory image whose distance grew
             # beyond the c.j range because only the jump's own image was compacted; bc_imm11's lax check wraps it
@@ -256,7 +262,27 @@ def check_program(ctx, prog, stats, canon=None):
                        'how_to_replay': 'tools/props/c13.py: check_program(ctx, JAL_RD_PROG, {}) — CBl(\'f\', R5) in section code, '
                                         'link with relaxation, decode the jump'}
             ctx.violation(rec)
+    # layout facts (model-independent): within each memory image a section moves down by exactly 2 bytes per jump
+    # shrunk in the EARLIER sections of the SAME image; so the first section of every image, and every section of an
+    # image without shrunk jumps, keeps its unrelaxed (layout) address, and no section starts below its memory
+    expected_addr = {}
+    for (mbase, names) in prog['memories']:
+        delta = 0
+        for n in names:
+            a0 = out0.get_section(n).address
+            expected_addr[n] = a0 - delta
+            got = out1.get_section(n).address
+            if got != a0 - delta or got < mbase:
+                ctx.violation(dict(base, defect='section_address', key='section_address', section=n,
+                                   unrelaxed=a0, expected=a0 - delta, got=got, memory_location=mbase,
+                                   what='section %s is at 0x%x after relaxation; layout/unrelaxed address 0x%x minus %d bytes '
+                                        'removed before it in its own image = 0x%x (memory starts at 0x%x)'
+                                        % (n, got, a0, delta, a0 - delta, mbase),
+                                   how_to_replay='tools/props/c13.py: check_program(ctx, <program in this record>, {})'))
+            delta += 2 * shrunk_in.get(n, 0)
     for s in out1.sections:
+        if s.name in expected_addr and s.address != expected_addr[s.name]:
+            continue      # reported above as section_address
         if s.alignment and s.address % s.alignment != 0:
             rec = dict(base, defect='section_misaligned', key='misaligned', section=s.name, address=s.address,
                        what='section %s (alignment %d) is at 0x%x after relaxation' % (s.name, s.alignment, s.address))
@@ -286,6 +312,17 @@ ALIGN_PROG = {'sections': {'code': [('label', 'a'), ('j', 'b'), ('nop', 3), ('la
 CROSS_PROG = {'sections': {'code': [('label', 'a'), ('j', 'a'), ('j', 'a'), ('nop', 4), ('j', 't'), ('nop', 1)],
                            'code2': [('label', 't'), ('nop', 2)]},
               'memories': [(0x1000, ['code']), (0x1000 + 24 + 2044, ['code2'])], 'order': ['code', 'code2']}
+# multi-image layouts: shrunk jumps in an EARLIER image (flash), LATER images (ram) hold sections whose symbols are
+# referenced from the code; the later images have no holes and must keep exactly their layout addresses
+MULTI_PROG = {'sections': {'code': [('label', 'a'), ('j', 'a'), ('nop', 2), ('jal', 1, 'b'), ('nop', 1), ('label', 'b'),
+                                    ('jal', 1, 'r'), ('nop', 1)],
+                           'code2': [('label', 'c'), ('j', 'c'), ('jal', 1, 'r2'), ('nop', 1)],
+                           'ram': [('label', 'r'), ('nop', 4), ('label', 'r2'), ('nop', 1)]},
+              'memories': [(0x1000, ['code', 'code2']), (0x20000, ['ram'])], 'order': ['code', 'code2', 'ram']}
+MULTI3_PROG = {'sections': {'code': [('label', 'a'), ('j', 'a'), ('j', 'a'), ('j', 'a'), ('jal', 1, 'd'), ('nop', 1)],
+                            'code2': [('label', 'c'), ('nop', 3), ('j', 'c'), ('nop', 1)],
+                            'code3': [('label', 'd'), ('nop', 2), ('jal', 1, 'c'), ('nop', 1)]},
+               'memories': [(0x0, ['code']), (0x8000, ['code2']), (0x40000, ['code3'])], 'order': ['code', 'code2', 'code3']}
 
 NAME2KIND = {'cb_imm11': 'RvcCBImm11', 'cbl_imm11': 'RvcCBlImm11', 'bc_imm11': 'RvcBcImm11', 'bc_imm8': 'RvcBcImm8',
              'b_imm20': 'RvBImm20', 'b_imm12': 'RvBImm12'}
@@ -321,15 +358,25 @@ def run(ctx):
         ctx.check_props('Props/C13.v')
     stats = {}
     # canonical witnesses of the two defects, re-executed on every run
-    check_program(ctx, JAL_RD_PROG, stats, canon='jal_rd')
-    check_program(ctx, ALIGN_PROG, stats, canon='align')
-    check_program(ctx, CROSS_PROG, stats, canon='cross')
+    canon_linkers = [check_program(ctx, JAL_RD_PROG, stats, canon='jal_rd'),
+                     check_program(ctx, ALIGN_PROG, stats, canon='align'),
+                     check_program(ctx, CROSS_PROG, stats, canon='cross'),
+                     check_program(ctx, MULTI_PROG, stats, canon='multi'),
+                     check_program(ctx, MULTI3_PROG, stats, canon='multi')]
     n = 40 if ctx.quick() and not ctx.failed_stages else 250
     cases, meta = [], []
+    # the deterministic programs (two of them multi-image with shrunk jumps in the EARLIER image and referenced
+    # sections in LATER images) are always part of the model/implementation correspondence
+    for ci, linker in enumerate(canon_linkers):
+        if linker is not None:
+            term, exp, kinds = model_case(linker)
+            cases.append((term, exp))
+            meta.append('canonical-%d' % ci)
+    ncanon = len(cases)
     for i in range(n):
         prog = gen_program(ctx)
         linker = check_program(ctx, prog, stats)
-        if linker is not None and len(cases) < (16 if ctx.quick() else 250):
+        if linker is not None and len(cases) - ncanon < (16 if ctx.quick() else 250):
             try:
                 term, exp, kinds = model_case(linker)
             except KeyError:
